@@ -29,8 +29,16 @@ type searcher interface {
 func newSearcher(repo gitstore.Storer) searcher {
 	persistentCache, err := cache.LoadPersistentCache(repo)
 	if err == nil {
-		slog.Debug("Persistent cache found, loading cache RSL searcher...")
-		return newCacheSearcher(repo, persistentCache)
+		// The cache only knows the entries that existed when it was populated
+		// or that a prior verification walked through, bring it up to date
+		// with the RSL first
+		slog.Debug("Persistent cache found, refreshing it...")
+		if err := persistentCache.Refresh(repo); err == nil {
+			slog.Debug("Loading cache RSL searcher...")
+			return newCacheSearcher(repo, persistentCache)
+		}
+		slog.Debug("Unable to refresh persistent cache, using regular RSL searcher...")
+		return newRegularSearcher(repo)
 	}
 
 	slog.Debug("Persistent cache not found, using regular RSL searcher...")
